@@ -65,6 +65,10 @@ fn creds() -> Vec<(String, String, &'static str)> {
         ("u".into(), "p".repeat(256), "pass256"),
         ("u".repeat(600), "p".repeat(600), "len600"),
         ("u".into(), "p".into(), "len1"),
+        // lengths are counted in octets, not characters
+        ("\u{444}".repeat(127), "\u{20ac}".repeat(85), "utf8-254-and-255-octets"),
+        ("\u{444}".repeat(128), "p".into(), "utf8-user-128-chars-256-octets"),
+        ("u".into(), "\u{20ac}".repeat(86), "utf8-pass-86-chars-258-octets"),
     ]
 }
 
